@@ -119,6 +119,9 @@ impl IdLen {
 }
 
 impl Family for IdLen {
+    fn ambient(&self, idx: u64) -> u64 {
+        crate::engine::rot(idx)
+    }
     fn name(&self) -> String {
         self.label.into()
     }
@@ -354,6 +357,9 @@ impl KindHistory {
     }
 }
 impl Family for KindHistory {
+    fn ambient(&self, idx: u64) -> u64 {
+        crate::engine::rot(idx)
+    }
     fn name(&self) -> String {
         "command-kind-x-previous-exchange".into()
     }
